@@ -394,7 +394,6 @@ Lemma step_vals_other frac period s o :
 Proof.
   destruct o as [c0 key infr addr_ok power h res now | prod | now total | rows | c0 phase set params]; auto.
   - unfold step, step_out. destruct (epoch (conss s) prod). reflexivity.
-  - reflexivity.
   - unfold step, step_out. destruct (getc s c0); cbn [fst]; [apply vals_setc | reflexivity].
 Qed.
 
@@ -419,6 +418,6 @@ Proof.
   destruct (punishable (getv s res)); cbn [andb].
   2:{ split; [discriminate|]. intros [_ [H|[[_ H]|[H|(_ & _ & _ & H & _)]]]]; discriminate. }
   split; [|auto]. intros _. split; [reflexivity|].
-  destruct (v_jailed (getv s res)); cbn [negb andb]; [right; right; right; auto|].
-  destruct (has_params s c); [right; right; left; reflexivity | right; right; right; auto].
+  destruct (v_jailed (getv s res)); cbn [negb andb]; [right; right; right; repeat split; auto|].
+  destruct (has_params s c); [right; right; left; reflexivity | right; right; right; repeat split; auto].
 Qed.
